@@ -105,7 +105,8 @@ class Ctx:
     # ---- finishing -------------------------------------------------------
     def finish(self):
         os.makedirs(os.path.join(VERIF, "evidence"), exist_ok=True)
-        os.makedirs(os.path.join(VERIF, "replays"), exist_ok=True)
+        rdir = os.environ.get("VERIF_REPLAY_DIR") or os.path.join(VERIF, "replays")
+        os.makedirs(rdir, exist_ok=True)
         cov = {
             "states": self.states, "transitions": self.transitions,
             "traces_validated_against_impl": self.traces,
@@ -133,7 +134,7 @@ class Ctx:
             if fp in seen or rep is None:
                 continue
             seen.add(fp)
-            path = os.path.join(VERIF, "replays", "%s-%s-%d.json" % (self.pid, fp.replace("/", "_").replace(" ", "_")[:60], self.seed))
+            path = os.path.join(rdir, "%s-%s-%d.json" % (self.pid, fp.replace("/", "_").replace(" ", "_")[:60], self.seed))
             rep = dict(rep)
             rep.setdefault("property", self.pid)
             rep["fingerprint"] = fp
